@@ -40,9 +40,11 @@ def value_defs(body, local=0, seen=None):
     return out
 
 
-def ret_cases(cx, body, cases, ignore, what):
+def ret_cases(cx, body, cases, ignore, what, unknown_needs=None):
     """Every def of the return value matches a case regex (then it must be guarded by the case's
-    literals) or an ignore regex; anything else is inconclusive."""
+    literals) or an ignore regex; anything else is inconclusive - unless unknown_needs=(lits, msg)
+    is given: an unrecognised return value outside the region guarded by all lits is a violation
+    (the rule allows only the ignore forms there), inside it it stays inconclusive."""
     n = 0
     for site, kind, node in value_defs(body, 0):
         o = body._origin_def(site, kind, node, 0, None, ())
@@ -60,6 +62,12 @@ def ret_cases(cx, body, cases, ignore, what):
             continue
         if any(re.search(rx, o) for rx in ignore):
             continue
+        if unknown_needs is not None:
+            lits, msg = unknown_needs
+            eng = OnlyIf(cx.facts, body)
+            if not all(eng.guarded(site, lit) for lit in lits):
+                cx.check(False, "%s: %s" % (what, msg), site, {"origin": o[:300]}, key="ret-unknown-outside " + what)
+                continue
         raise Inconclusive("%s: return-value def %r at %s matches no case" % (what, o[:160], site.where()))
     cx.require(n > 0, "%s: no case matched" % what)
 
@@ -291,7 +299,8 @@ def c01_4e(cx):
     derived = VariantIn(origin, {"Derived"}, desc="origin is Derived")
     nonprov = CallIs(r"MemoHeader::may_be_provisional$", False, [r"^\$1$"], desc="!self.may_be_provisional()")
     edges_call = r"^function::maybe_changed_after::deep_verify_edges\(\$2, function::sync::ClaimGuard::<'me>::zalsa\(\$3\), \$1\.revisions, revision::AtomicRevision::load\(\$1\.verified_at\), function::memo::MemoHeader::origin\(\$1\)@Derived\.0, function::sync::ClaimGuard::<'me>::database_key_index\(\$3\)\)$"
-    ret_cases(cx, b, [(edges_call, [derived, nonprov], "deep_verify_edges(db, zalsa, &self.revisions, verified_at, edges, key)")], [r"^function::maybe_changed_after::VerifyResult::changed\(\)$", r"^VerifyResult::Changed\{\}$"], "deep_verify_memo")
+    ret_cases(cx, b, [(edges_call, [derived, nonprov], "deep_verify_edges(db, zalsa, &self.revisions, verified_at, edges, key)")], [r"^function::maybe_changed_after::VerifyResult::changed\(\)$", r"^VerifyResult::Changed\{\}$", r"^function::maybe_changed_after::VerifyResult::changed_if\(const:1\)$"], "deep_verify_memo",
+              unknown_needs=([derived], "a result other than Changed is produced outside the Derived arm (Assigned / DerivedUntracked memos have no edges that could prove them unchanged)"))
     de = cx.one_call(b, r"^function::maybe_changed_after::deep_verify_edges$", "deep_verify_edges call")
     # not reached for Panic-strategy cycle participants
     eng = OnlyIf(cx.facts, b)
